@@ -181,7 +181,7 @@ class ExtentAttribute:
 
   @staticmethod
   def set(ttml_element, res):
-    ttml_element.set(ExtentAttribute.qn, f"{res.width:g}px {res.height:g}px")
+    ttml_element.set(ExtentAttribute.qn, f"{int(res.width)}px {int(res.height)}px")
 
 class ActiveAreaAttribute:
   '''ittp:activeArea attribute on \\<tt\\>
@@ -340,7 +340,7 @@ class DisplayAspectRatioAttribute:
   def set(ttml_element, display_aspect_ratio: Fraction):
     ttml_element.set(
       DisplayAspectRatioAttribute.qn, 
-      f"{display_aspect_ratio.numerator:g} {display_aspect_ratio.denominator:g}"
+      f"{display_aspect_ratio.numerator:d} {display_aspect_ratio.denominator:d}"
     )
 
 class FrameRateAttribute:
@@ -411,7 +411,7 @@ class FrameRateAttribute:
 
       ttml_element.set(
         FrameRateAttribute.frame_rate_multiplier_qn, 
-        f"{fps_multiplier.numerator:g} {fps_multiplier.denominator:g}"
+        f"{fps_multiplier.numerator:d} {fps_multiplier.denominator:d}"
       )
 
 @dataclass
